@@ -326,7 +326,13 @@ def analyse(unit, path, text, regions, res, canary_marks=None):
                 if re.search(r'\bassert\s*!', src):
                     props.add(panic_prop)
                 elif region:
+                    # a failed proof step: everything Verus proves after it in this function (its labelled clauses AND its
+                    # implicit no-panic obligations) is proved only under the failed assertion
                     props.update(region.props)
+                    props.add(panic_prop)
+            elif kind == 'invariant' and region:
+                props.update(region.props)
+                props.add(panic_prop)
             elif region:
                 props.update(region.props)
         if not props and region is None:
